@@ -20,13 +20,11 @@ the Go recursion returns.  It is false on a hierarchy with a cycle through `d`
 (`filter_returns_only_without_cycle`; cycles can be made: a rename of a directory into
 its own subtree is not rejected).
 
-NOT proved here (hence `_partial`): (1) that every callback item is handed out exactly
-ONCE (needs: the directories entered are pairwise different, from `contents_inv`'s
-one-parent clause and the absence of a cycle); (2) that `walkDone` holds with the model's
-fuel for every reachable store without a cycle below `d` (same counting argument).  Both
-are checked by the Go monitor of harness/cmd/dir on every generated history.
-Full statement: `walkDone … → (reports).Nodup ∧ (r ∈ reports ↔ …)` and
-`(∀ o, Reach d o → ¬ cycle through o) → walkDone …`.
+`filter_visits_every_leaf_partial` keeps that hypothesis.  `filter_returns_on_acyclic` discharges
+it for every reachable store in which no directory at or below `d` lies on a cycle
+(`NoCyc s [d]`; the directories entered are pairwise different by `contents_inv`'s one-parent
+clause, all exist, so there are at most `dirs.length` of them), which gives the unconditional
+`filter_visits_every_leaf` and `filter_visits_each_item_once` (no callback item twice).
 -/
 namespace BbRe.Properties.C13Filter
 open BbRe.Dir BbRe.Lemmas.Dir
@@ -86,6 +84,46 @@ theorem filter_returns_only_without_cycle (P : Params) (ops : List Op) (d fuel :
   rintro ⟨c, he, hr⟩
   exact walkDone_no_cycle _ (fun a => ((C13.inv_reachable P ops).dirOK a).lazy) fuel [d] hdone d (by simp) c he hr
 
+/-- On every reachable store in which no directory at or below `d` lies on a cycle, the
+traversal returns within the model's fuel. -/
+theorem filter_returns_on_acyclic (P : Params) (ops : List Op) (d : Nat)
+    (hd : d < (run P init ops).dirs.length) (hacyc : NoCyc (run P init ops) [d]) :
+    walkDone ((run P init ops).dirs.length + totalEntries (run P init ops) + 1) (run P init ops) [d] = true :=
+  walkDone_of_noCyc (C13.inv_reachable P ops) d hd hacyc _
+
+/-- Conversely to `filter_returns_only_without_cycle`, for all directories at or below `d`:
+a traversal that returns has met no cycle. -/
+theorem filter_returns_only_on_acyclic (P : Params) (ops : List Op) (d fuel : Nat)
+    (hdone : walkDone fuel (run P init ops) [d] = true) : NoCyc (run P init ops) [d] :=
+  walkDone_noCyc _ (fun a => ((C13.inv_reachable P ops).dirOK a).lazy) fuel [d] hdone
+
+/-- No callback item is handed out twice (whatever the callback answers). -/
+theorem filter_visits_each_item_once (P : Params) (ops : List Op) (d limit : Nat)
+    (hacyc : NoCyc (run P init ops) [d]) :
+    ((filterChildren (run P init ops) d limit).2.reports).Nodup := by
+  have h : Inv P (run P init ops) := C13.inv_reachable P ops
+  have hnd := walkDirs_nodup (run P init ops) (fun p a c => edge_parent_unique h) (dirChildren_nodup h)
+    ((run P init ops).dirs.length + totalEntries (run P init ops) + 1) [d] hacyc (by simp [BbRe.Lemmas.Dir.Sep])
+  have hw := filterWalk_nodup (run P init ops) (fun a => h.dirOK a) _ [d] hnd
+  exact hw.sublist (List.take_sublist _ _)
+
+/-- `filter_visits_every_leaf_partial` without the hypothesis that the traversal returns:
+on an acyclic hierarchy below an existing `d`, a callback that never stops gets exactly the
+leaves of the initialised directories and the pending directories at or below `d` — each
+once (`filter_visits_each_item_once`), nothing missing, nothing else. -/
+theorem filter_visits_every_leaf (P : Params) (ops : List Op) (d limit : Nat)
+    (hd : d < (run P init ops).dirs.length) (hacyc : NoCyc (run P init ops) [d])
+    (hlimit : (filterWalk ((run P init ops).dirs.length + totalEntries (run P init ops) + 1) (run P init ops) [d]).length ≤ limit)
+    (r : Report) :
+    ((filterChildren (run P init ops) d limit).2.reports).Nodup ∧
+    (r ∈ (filterChildren (run P init ops) d limit).2.reports ↔
+      ∃ owner, BbRe.Spec.Posix.Reach (abs (run P init ops)) d owner ∧
+        ((((run P init ops).dir owner).lazy ≠ none ∧ r = ⟨owner, 0, .dir owner⟩) ∨
+         (((run P init ops).dir owner).lazy = none ∧
+            ∃ e ∈ ((run P init ops).dir owner).entries, e.child.isDir = false ∧ r = ⟨owner, e.name, e.child⟩))) :=
+  ⟨filter_visits_each_item_once P ops d limit hacyc,
+   filter_visits_every_leaf_partial P ops d limit (filter_returns_on_acyclic P ops d hd hacyc) hlimit r⟩
+
 /-- More fuel than the traversal needs changes nothing: the model's result does not depend
 on the particular fuel once the traversal returns. -/
 theorem filter_fuel_irrelevant (P : Params) (ops : List Op) (d fuel k : Nat)
@@ -131,5 +169,9 @@ example : (filterChildren (run C13.exP init C13.exOps) 0 2).2.reports =
 
 -- directory 3 is still pending afterwards
 example : ((filterChildren (run C13.exP init C13.exOps) 0 100).1.dir 3).lazy = some 0 := by decide
+
+-- the hypotheses of `filter_visits_every_leaf` hold for the example store and directory 0
+example : 0 < (run C13.exP init C13.exOps).dirs.length ∧ NoCyc (run C13.exP init C13.exOps) [0] :=
+  ⟨by decide, filter_returns_only_on_acyclic C13.exP C13.exOps 0 _ (by decide : walkDone 9 _ [0] = true)⟩
 
 end BbRe.Properties.C13Filter
